@@ -25,31 +25,49 @@ func H_C08_timer() {
 	}
 	zz.TickBudget(0)
 	returned := false
+	entry := zz.TimeOf(time.Now()) // the harness's own clock reading just before the call
 	zz.Go(func() {
 		tm.TakeTimeout()
 		returned = true
 	})
-	zz.Yield() // runs TakeTimeout up to its first wait for a tick
-	zz.Assert(!returned, "C08: TakeTimeout returned before any poll tick")
-	// instant of the latest refresh so far = the clock reading drawn on entry
-	last := zz.LastNow()
-	entry := last
+	zz.Yield() // runs TakeTimeout up to its first wait
+	zz.Assert(!returned, "C08: TakeTimeout returned before any wake-up")
+	zz.Assert(zz.TimeOf(tm.lastUpdate) >= entry, "C08: TakeTimeout does not start its period at the moment it is entered (stale last-refresh instant)")
+	checkedWaits := 0
+	// every timed wait the loop arms must end no later than timeout + timeout/10 after the latest
+	// refresh (a ticker re-arms itself every period)
+	checkWaits := func() {
+		n := zz.ArmedWaits()
+		for ; checkedWaits < n; checkedWaits++ {
+			d := zz.ArmDuration(checkedWaits)
+			zz.Assert(d > 0, "C08: a wait is armed with a non-positive duration")
+			if zz.ArmIsTicker(checkedWaits) {
+				zz.Assert(d*10 <= int64(T), "C08: the poll ticker period exceeds timeout/10")
+			} else {
+				lim := zz.TimeOf(tm.lastUpdate) + int64(T) + int64(T)/10
+				zz.Assert(zz.ArmInstant(checkedWaits)+d <= lim, "C08: a wait is armed to end later than timeout + timeout/10 after the last refresh")
+			}
+		}
+	}
+	checkWaits()
+	zz.Assert(zz.ArmedWaits() >= 1, "C08: TakeTimeout waits without arming any timer")
 	for k := 0; k < zz.Param(0); k++ {
 		if zz.Bool() {
-			tm.Refresh() // an outbound (or inbound) message refreshes the timer between two ticks
-			last = zz.LastNow()
+			tm.Refresh() // an outbound (or inbound) message refreshes the timer between two wake-ups
 		}
 		zz.Tick()
 		zz.Yield()
-		reading := zz.LastNow() // the clock value the poll compared against
+		reading := zz.LastNow() // a clock value read at or after the poll's comparison
+		last := zz.TimeOf(tm.lastUpdate)
 		due := reading >= last+int64(T)
 		zz.Reach("tick")
 		zz.Assert(zz.Implies(returned, due), "C08: TakeTimeout returned before timeout elapsed since the last refresh")
 		zz.Assert(zz.Implies(returned, reading >= entry+int64(T)), "C08: TakeTimeout returned sooner than timeout after it was entered")
-		zz.Assert(zz.Implies(due, returned), "C08: TakeTimeout keeps waiting although timeout has elapsed since the last refresh")
 		if returned {
 			return
 		}
+		zz.Assert(!due, "C08: TakeTimeout keeps waiting although timeout has elapsed since the last refresh")
+		checkWaits()
 	}
 }
 
